@@ -51,7 +51,7 @@ int libwifi_get_rsn_info(struct libwifi_rsn_info *info, const unsigned char *tag
     if ((data + sizeof(uint16_t)) > tag_end) {
         return -EINVAL;
     }
-    uint16_t suite_count = *data;
+    uint16_t suite_count = (uint16_t) (data[0] | (data[1] << 8));
     if (suite_count > LIBWIFI_MAX_CIPHER_SUITES) {
         suite_count = LIBWIFI_MAX_CIPHER_SUITES;
     }
@@ -76,7 +76,7 @@ int libwifi_get_rsn_info(struct libwifi_rsn_info *info, const unsigned char *tag
     if ((data + sizeof(suite_count)) > tag_end) {
         return -EINVAL;
     }
-    suite_count = *data;
+    suite_count = (uint16_t) (data[0] | (data[1] << 8));
     if (suite_count > LIBWIFI_MAX_CIPHER_SUITES) {
         suite_count = LIBWIFI_MAX_CIPHER_SUITES;
     }
@@ -334,7 +334,7 @@ int libwifi_get_wpa_info(struct libwifi_wpa_info *info, const unsigned char *tag
     if ((data + sizeof(uint16_t)) > tag_end) {
         return -EINVAL;
     }
-    uint16_t suite_count = *data;
+    uint16_t suite_count = (uint16_t) (data[0] | (data[1] << 8));
     if (suite_count > LIBWIFI_MAX_CIPHER_SUITES) {
         suite_count = LIBWIFI_MAX_CIPHER_SUITES;
     }
@@ -359,7 +359,7 @@ int libwifi_get_wpa_info(struct libwifi_wpa_info *info, const unsigned char *tag
     if ((data + sizeof(suite_count)) > tag_end) {
         return -EINVAL;
     }
-    suite_count = *data;
+    suite_count = (uint16_t) (data[0] | (data[1] << 8));
     if (suite_count > LIBWIFI_MAX_CIPHER_SUITES) {
         suite_count = LIBWIFI_MAX_CIPHER_SUITES;
     }
